@@ -46,7 +46,7 @@ def several_pending(rng, version, hist):
     """a sleeping node with two children and two reported value types each; the controller sets two to four of
     them while it sleeps; it wakes up (all of them are due in the same burst), reports one, wakes up again"""
     node = rng.choice([1, 2, 7, 42])
-    wake = f"{node};255;3;0;{32 if version == '2.2' else 22};{rng.randrange(1000)}\n"
+    wake = f"{node};255;3;0;{32 if version == '2.2' else 22};{gw.wake_payload(rng)}\n"
     kids = rng.sample([0, 1, 5, 9], 2)
     val = {2: lambda: rng.choice(["0", "1"]), 3: lambda: str(rng.randrange(101))}
     script = [("L", f"{node};255;0;0;17;{version}\n")]
